@@ -10,8 +10,24 @@ COQ_TARGETS = ("props/C17.vo",)
 THEOREMS = ["C17_marker", "C17_refused_unmodified", "C17_locked_unmodified", "C17_lock_iff_handle"]
 
 
-def tree_hash(d):
+def tree_hash(d, shallow=False):
+    """hash of the directory tree; shallow = top-level files (journals, marker, lock) and keyspace directory names only
+    (used while another live instance's background workers may legitimately rewrite tables)"""
     h = hashlib.sha256()
+    if shallow:
+        for f in sorted(os.listdir(d)):
+            p = os.path.join(d, f)
+            h.update(f.encode())
+            if os.path.isfile(p):
+                try:
+                    with open(p, "rb") as fh:
+                        h.update(fh.read(1 << 20).rstrip(b"\0"))
+                    h.update(str(os.path.getsize(p)).encode())
+                except OSError:
+                    pass
+            else:
+                h.update(",".join(sorted(os.listdir(p))).encode())
+        return h.hexdigest()
     for root, dirs, files in sorted(os.walk(d)):
         dirs.sort()
         for f in sorted(files):
@@ -89,9 +105,9 @@ def lock_scenario(idx, mode):
         open(pa, "w").write("\n".join(hold) + "\n")
         a = subprocess.Popen([FJV, "run", pa, db], env=ENV, stdout=subprocess.PIPE, stderr=subprocess.PIPE, text=True)
         time.sleep(0.6)
-        h0 = tree_hash(db)
+        h0 = tree_hash(db, shallow=True)
         o1, _, _ = run_fjv("open %s\n" % mode, dbdir=db)
-        h1 = tree_hash(db)
+        h1 = tree_hash(db, shallow=True)
         workers_alive = worker_threads(a.pid)
         problems = []
         if o1.get(1) != "err locked":
@@ -115,6 +131,18 @@ def lock_scenario(idx, mode):
         return problems
     finally:
         shutil.rmtree(wd, ignore_errors=True)
+
+
+def slow_worker_drop(mode, workers):
+    """the last handle is dropped while a worker thread is slow to leave the pool (held for 1.5 s between receiving the
+    Close message and signing off): the drop must still complete and the directory must open again"""
+    prog = ("open %s workers=%d\nks h0 alpha\nput h0 61 01\npausepoint worker.exit 1 hold\nthread c close &\nsleep 1500\n"
+            "release worker.exit\nsleep 400\nthread c open %s\nthread c ks h0 alpha\nthread c get - h0 61\n" % (mode, workers, mode))
+    o, raw, rc = run_fjv(prog, env_extra={"FJV_SYNC_TIMEOUT_MS": "4000"}, timeout=60)
+    if o.get(5) != "ok" or o.get(9) != "ok" or o.get(11) != "some 01":
+        return ("dropping the last handle while a worker is slow to exit never completes (close: %s, reopen: %s, read: %s)"
+                % (o.get(5), o.get(9), o.get(11)), prog)
+    return None
 
 
 def worker_threads(pid):
@@ -156,6 +184,12 @@ def run(rep, tier, seed, build):
             lp += [(mode, p) for p in lock_scenario(i, mode)]
         for mode, p in lp[:2]:
             rep.violation("# C17 (%s database): %s\n" % (mode, p))
+        for mode, w in [("plain", 2), ("occ", 1), ("sw", 4)][: (2 if tier == "quick" else 3)]:
+            sw = slow_worker_drop(mode, w)
+            if sw:
+                lp.append((mode, sw[0]))
+                rep.violation("# C17 (%s database, %d workers): %s\n%s" % (mode, w, sw[0], sw[1]))
+                break
         if problems and not rep.violations:
             rep.violation("# C17: proof obligations no longer check\n" + "\n".join(problems) + "\n", suffix="no-failing-input-found")
         rep.coverage = dict(
